@@ -161,6 +161,7 @@ def generate(repo, g):
     g.define('extractInputGuard', 'String', lean_str('name.value not in inputs'),
              'jedi/api/refactoring/extract.py:_find_inputs_and_outputs, the only condition under which a read is not '
              'looked up (checked as part of the loop shape)')
+    generate_check(ext, g)
     g.fp(ext, '_is_name_input')
     g.fp(ext, '_find_non_global_names')
     for s, d in [(ref, 'inline'), (ref, '_remove_indent_of_prefix'), (ext, 'extract_variable'),
@@ -170,3 +171,112 @@ def generate(repo, g):
                  (ext, '_find_inputs_and_outputs'), (ext, '_find_needed_output_variables'),
                  (ext, '_get_code_insertion_node'), (ext, '_suite_nodes_to_string'), (ext, '_split_prefix_at')]:
         g.fp(s, d)
+
+
+# ---------------------------------------------------------------- _check_for_non_extractables as data
+
+_PARTS = ('children', 'children[:else_index]', 'children[else_index:]')
+_FLAGS = ('True', 'False', 'in_loop')
+_ELSE_INDEX = ["else_index = len(children)",
+               "for i, child in enumerate(children):\n    if child.type == 'keyword' and child.value == 'else':\n"
+               "        else_index = i"]
+
+
+def _check_commands(stmts, where, in_loop_branch):
+    """statements of one branch of _check_for_non_extractables -> [(op, a, b)] (see Model/NonExtractable.lean)"""
+    out = []
+    for st in stmts:
+        t = u(st)
+        if in_loop_branch and t in _ELSE_INDEX:
+            continue
+        if isinstance(st, ast.Expr) and isinstance(st.value, ast.Call) \
+                and u(st.value.func) == '_check_for_non_extractables':
+            c = st.value
+            flag = 'False'
+            if len(c.args) == 2 and not c.keywords:
+                flag = u(c.args[1])
+            elif len(c.args) == 1 and len(c.keywords) == 1 and c.keywords[0].arg == 'in_loop':
+                flag = u(c.keywords[0].value)
+            elif not (len(c.args) == 1 and not c.keywords):
+                raise TieBroken('extract.py: _check_for_non_extractables: unknown recursive call in %s' % where, t)
+            part = u(c.args[0])
+            if part not in _PARTS or flag not in _FLAGS or (part != 'children' and not in_loop_branch):
+                raise TieBroken('extract.py: _check_for_non_extractables: unknown recursive call in %s' % where, t)
+            out.append(('call', part, flag))
+        elif isinstance(st, ast.Assign) and len(st.targets) == 1 and u(st.targets[0]) == 'in_loop' \
+                and u(st.value) in _FLAGS:
+            out.append(('set', 'in_loop', u(st.value)))
+        elif in_loop_branch and t == 'children = children[:else_index]':
+            out.append(('narrow', 'children', 'children[:else_index]'))
+        else:
+            raise TieBroken('extract.py: _check_for_non_extractables: unknown statement in %s' % where, t)
+    return out
+
+
+def _type_list(test, where):
+    if isinstance(test, ast.Compare) and len(test.ops) == 1 and isinstance(test.ops[0], ast.In) \
+            and u(test.left) == 'n.type' and isinstance(test.comparators[0], (ast.Tuple, ast.List)):
+        return [ast.literal_eval(e) for e in test.comparators[0].elts]
+    raise TieBroken('extract.py: _check_for_non_extractables: %s is not `n.type in (...)`' % where, u(test))
+
+
+def generate_check(ext, g):
+    fn = ext.find('_check_for_non_extractables')
+    src = 'jedi/api/refactoring/extract.py:_check_for_non_extractables'
+    if u(fn.args) != 'nodes, in_loop=False':
+        raise TieBroken('extract.py: _check_for_non_extractables: signature changed', u(fn.args))
+    body = [n for n in fn.body if not (isinstance(n, ast.Expr) and isinstance(n.value, ast.Constant))]
+    if len(body) != 1 or not isinstance(body[0], ast.For) or u(body[0].target) != 'n' or u(body[0].iter) != 'nodes' \
+            or body[0].orelse or len(body[0].body) != 1 or not isinstance(body[0].body[0], ast.Try):
+        raise TieBroken('extract.py: _check_for_non_extractables is no longer `for n in nodes: try: ...`',
+                        ' | '.join(u(b).split('\n')[0] for b in body))
+    tr = body[0].body[0]
+    if [u(x) for x in tr.body] != ['children = n.children'] or len(tr.handlers) != 1 \
+            or u(tr.handlers[0].type) != 'AttributeError' or tr.finalbody:
+        raise TieBroken('extract.py: _check_for_non_extractables: the try statement changed', u(tr).split('\n')[0])
+    always, jumps = [], []
+    for st in tr.handlers[0].body:
+        ok = isinstance(st, ast.If) and not st.orelse and len(st.body) == 1 and isinstance(st.body[0], ast.Raise) \
+            and isinstance(st.body[0].exc, ast.Call) and u(st.body[0].exc.func) == 'RefactoringError'
+        if not ok:
+            raise TieBroken('extract.py: _check_for_non_extractables: unknown statement in the leaf branch', u(st))
+        t = st.test
+        if isinstance(t, ast.Compare) and u(t.left) == 'n.value' and len(t.ops) == 1 and isinstance(t.ops[0], ast.Eq) \
+                and isinstance(t.comparators[0], ast.Constant):
+            always.append(t.comparators[0].value)
+        elif isinstance(t, ast.BoolOp) and isinstance(t.op, ast.And) and len(t.values) == 3 \
+                and u(t.values[0]) == "n.type == 'keyword'" and u(t.values[2]) == 'not in_loop' \
+                and isinstance(t.values[1], ast.Compare) and u(t.values[1].left) == 'n.value' \
+                and isinstance(t.values[1].ops[0], ast.In):
+            jumps += [ast.literal_eval(e) for e in t.values[1].comparators[0].elts]
+        else:
+            raise TieBroken('extract.py: _check_for_non_extractables: unknown leaf condition', u(t))
+    rest = list(tr.orelse)
+    if not rest or not isinstance(rest[0], ast.If):
+        raise TieBroken('extract.py: _check_for_non_extractables: no `if n.type in (...)` chain for nodes with children')
+    chain, tail = rest[0], rest[1:]
+    loop_types = _type_list(chain.test, 'the first branch')
+    loop = _check_commands(chain.body, 'the loop branch', True)
+    scope_types, scope, other = [], [], []
+    if chain.orelse:
+        if len(chain.orelse) == 1 and isinstance(chain.orelse[0], ast.If):
+            c2 = chain.orelse[0]
+            scope_types = _type_list(c2.test, 'the second branch')
+            scope = _check_commands(c2.body, 'the scope branch', False)
+            other = _check_commands(c2.orelse, 'the else branch', False)
+        else:
+            other = _check_commands(chain.orelse, 'the else branch', False)
+    tail = _check_commands(tail, 'the statements behind the if chain', False)
+
+    def triples(xs):
+        return '[' + ', '.join('(%s, %s, %s)' % tuple(lean_str(y) for y in x) for x in xs) + ']'
+    T = 'List (String × String × String)'
+    g.define('checkAlwaysRefused', 'List String', lean_list(always), src + ', leaf values that raise')
+    g.define('checkJumpKeywords', 'List String', lean_list(jumps), src + ', leaf values that raise when not in_loop')
+    g.define('checkLoopTypes', 'List String', lean_list(loop_types), src + ', node types of the loop branch')
+    g.define('checkScopeTypes', 'List String', lean_list(scope_types), src + ', node types of the scope branch')
+    g.define('checkLoopBranch', T, triples(loop), src + ', statements of the loop branch (else_index computation left out)')
+    g.define('checkScopeBranch', T, triples(scope), src + ', statements of the funcdef / classdef / lambdef branch')
+    g.define('checkOtherBranch', T, triples(other), src + ', statements of the else branch')
+    g.define('checkTail', T, triples(tail), src + ', statements behind the if chain (run for every node with children)')
+    g.fp(ext, '_check_for_non_extractables')
